@@ -56,7 +56,7 @@ func (s *StrStore) Load(ss []string) ([]int, error) {
 		totalLen += len(ss[i])
 	}
 	idxes := make([]int, n)
-	if cap(s.buf) < totalLen || s.viewsOfBuf(ss) {
+	if cap(s.buf) < totalLen || s.Views(ss) {
 		// a string may be a view of the old buffer (returned by Get):
 		// the buffer must not be overwritten while such strings are still to be copied
 		s.buf = make([]byte, totalLen)
@@ -74,8 +74,8 @@ func (s *StrStore) Load(ss []string) ([]int, error) {
 	return idxes, nil
 }
 
-// viewsOfBuf reports whether any of ss shares memory with the backing array of s.buf.
-func (s *StrStore) viewsOfBuf(ss []string) bool {
+// Views reports whether any of ss shares memory with the backing array of s.buf.
+func (s *StrStore) Views(ss []string) bool {
 	if cap(s.buf) == 0 {
 		return false
 	}
